@@ -162,7 +162,7 @@ func ruleR11_3(w *World, r *Report) {
 			})
 		}
 		ver := d.name(mux.n, mu.Value)
-		good = ver == "$5" && d.dominates(mux, dins{d.root, rep.(ssa.Instruction)}) && canonName(filt.Common().Args[0]) == "$3" && same
+		good = ver == "$5" && d.dominates(mux, d.find(rep.(ssa.Instruction))) && canonName(filt.Common().Args[0]) == "$3" && same
 		detail = fmt.Sprintf("version value %s, filter %s: expected the sseq parameter stored before ReplaceOne of the same document, filtered by the id parameter", ver, canonName(filt.Common().Args[0]))
 	}
 	pos := u.Pos(fn.Pos())
